@@ -145,6 +145,7 @@ type Cell struct {
 	pos    token.Pos
 	global *ssa.Global
 	ghost  bool
+	lazy   bool // created on first use (captured variable of a closure verified on its own): unknown where absent
 }
 
 type State struct {
@@ -445,7 +446,7 @@ func (x *Exec) mergeStates(sts []*State) *State {
 		for i := len(live) - 1; i >= 0; i-- {
 			cv, ok := live[i].cells[c]
 			if !ok {
-				if !strings.HasPrefix(c.name, "last_") {
+				if !strings.HasPrefix(c.name, "last_") && !c.lazy {
 					continue
 				}
 				// "result of the last call to f": unknown on a path without such a call
